@@ -197,6 +197,16 @@ func main() {
 		msn, _ := strconv.Atoi(a[2])
 		return runNoFilter(seed, n, msn)
 	})
+	RegisterOp("racedef", func(a []string) string { // racedef <seed> <nconn> <ms> <variant 0|1>: default options, detector child only
+		if !raceEnabled {
+			return replayGeneric("racedef " + strings.Join(a, " "))
+		}
+		seed, _ := strconv.ParseInt(a[0], 10, 64)
+		n, _ := strconv.Atoi(a[1])
+		msn, _ := strconv.Atoi(a[2])
+		v, _ := strconv.Atoi(a[3])
+		return runDefault(seed, n, msn, v)
+	})
 	RegisterOp("racew", func(a []string) string { // racew <seed> <slow 0|1>: the C12/C13 scenario kinds, detector child only
 		if !raceEnabled {
 			return "n/a outside the detector child"
@@ -232,7 +242,7 @@ func main() {
 }
 
 func c18(c *Ctx) {
-	c.Rule = "tie (i): the call graph, then one request per distinct (function, struct, field, read/write) selector site of package service on the statically placed structs, every static call / go / closure-sent-on-a-channel edge between its functions and every variable captured by a closure that runs in another goroutine (exhaustive over the current source); the model side derives the goroutine class(es) reaching each function from its root table and judges each site by (class, location, role); tie (ii): scenarios of 6..20 terminals (first messages, duplicate keys, heartbeats, locations, authentication, sub-packaged and unsupported messages, answers / missing answers / duplicate answers, FIN / close / RST) x 2..6 callers (7 command types, with and without timer, 1..100 ms timeouts) on one server built with -race and seeded delays before every channel operation of connection.go; every 8th round a scenario on a second server with the sub-package filter off (WithHasSubcontract(false), 4..12 terminals sending sub-packaged 0x0200/0x0801 transfers, an eventer that reads msg.Header in OnReadExecutionEvent), and every 8th round additionally the 22 (thorough: all 26) command / teardown scenario kinds of C12/C13 (lib/conc_writer.go GenW/RunW) run in parallel on the same server; non-trivial = a scenario in which commands were answered AND timed out or were cut by a teardown; distinct = distinct scenario seeds"
+	c.Rule = "tie (i): the call graph, then one request per distinct (function, struct, field, read/write) selector site of package service on the statically placed structs, every static call / go / closure-sent-on-a-channel edge between its functions and every variable captured by a closure that runs in another goroutine (exhaustive over the current source); the model side derives the goroutine class(es) reaching each function from its root table and judges each site by (class, location, role); tie (ii): scenarios of 6..20 terminals (first messages, duplicate keys, heartbeats, locations, authentication, sub-packaged and unsupported messages, answers / missing answers / duplicate answers, FIN / close / RST) x 2..6 callers (7 command types, with and without timer, 1..100 ms timeouts) on one server built with -race and seeded delays before every channel operation of connection.go; every 8th round a scenario on a server with DEFAULT options (the library's own eventer / handlers / key func, alternately only WithKeyFunc: duplicate-key joins, invalid keys, parallel disconnects), every 8th round a scenario on a second server with the sub-package filter off (WithHasSubcontract(false), 4..12 terminals sending sub-packaged 0x0200/0x0801 transfers, an eventer that reads msg.Header in OnReadExecutionEvent), and every 8th round additionally the 22 (thorough: all 26) command / teardown scenario kinds of C12/C13 (lib/conc_writer.go GenW/RunW) run in parallel on the same server; non-trivial = a scenario in which commands were answered AND timed out or were cut by a teardown; distinct = distinct scenario seeds"
 	rng := c.Rng
 	// ---- tie (i): access sites
 	sites, edges, caps, decls, err := listSites(ServiceDir())
@@ -332,6 +342,26 @@ func c18(c *Ctx) {
 			} else if wst == "hang" { // not judged (slowness is not a race), but never silent: bin/check prints a NOTE
 				c.Count("racew:child-hang")
 				rr.ch.Kill()
+				continue
+			}
+		}
+		if n%8 == 2 { // the server with DEFAULT options (the library's own eventer, handlers, key func; odd rounds: only WithKeyFunc)
+			dreq := fmt.Sprintf("racedef %d %d %d %d", rng.Int63n(1<<30), 6+rng.Intn(9), ms, (n/8)%2)
+			dans, dst := rr.ch.Ask(dreq, 120*time.Second)
+			rr.collect(c, dreq, seenSig)
+			if dst == "ok" && !strings.Contains(dans, `"DEF":"ok"`) {
+				c.Count("racedef:setup-failed")
+			} else if dst == "ok" {
+				tot["default_option_rounds"]++
+				c.Eval(dreq, true)
+			} else if dst == "hang" {
+				c.Count("racedef:child-hang")
+				rr.ch.Kill()
+				continue
+			} else if dst == "crash" {
+				fatal++
+				c.Violate(Violation{Signature: "C18/crash", What: "the server under the race detector died", Input: dreq,
+					Observed: panicHead(rr.ch.Stderr()), Required: required + "; and no scenario crashes the server"})
 				continue
 			}
 		}
